@@ -20,7 +20,10 @@ prop(
     rule="machine: FailoverGroup with one upstream (shared cache on), concurrency in {1,2,3,8}, rateLimit 1e6/s, 3-4 distinct questions "
          "drawn from {2 instant queries, range queries with fixed instants over two expressions, config, flags, 2 metadata}; range questions may share "
          "their expression and step while asking about different windows: 1/2/3/5 whole slices from 00:00, [0,1h] vs [0,1h30] (same start, other end, "
-         "unsliced), [m*2h, m*2h+1h30] (starts where the trailing slice of an (m+1)-slice window starts); every range caller's result must be exactly "
+         "unsliced), [m*2h, m*2h+1h30] (starts where the trailing slice of an (m+1)-slice window starts); range answers are multi-series; for the 'gappy' expressions g1/g2 they differ per slice in number, labels and sort order of their series "
+         "and never merge across a slice boundary; at the end every successful range caller's FULL result (all series and ranges) is compared with the fold of "
+         "what the server actually answered for the slices of its window (also for callers served from the cache after the first one completed); "
+         "every range caller's result must be exactly "
          "what the fake answered for ITS window (the fake puts a sample on every requested grid point, so the merged range is determined by "
          "start/end/step: an answer computed for another window does not fit); about 30-40 actions per "
          "sequence from {start a caller (<=12 unfinished), release one blocked request with success, release one with an error "
